@@ -39,6 +39,7 @@ type World struct {
 	callerIdx map[*ssa.Function][]ssa.CallInstruction // lazily built static call index
 	Tags      string
 	cg        *callgraph.Graph
+	RenameNotes []string // what the rename normalisation took to be renamed
 }
 
 // undecidedErr is raised (by panic) when an anchor named in a rule table does
